@@ -73,6 +73,7 @@ impl Prop for C16 {
         let coin = COINS[(item % 8) as usize];
         let mut scn = new_scenario("C16", "opreturn", coin);
         let nb = rng.usize(1, 8);
+        let mut seen_payloads: Vec<Vec<u8>> = Vec::new();
         for i in 0..nb {
             let mut txs = vec![];
             for k in 0..rng.usize(1, 4) {
@@ -80,7 +81,9 @@ impl Prop for C16 {
                 for _ in 0..rng.usize(1, 6) {
                     let script = match rng.below(8) {
                         0..=3 => {
-                            let p = payload(rng);
+                            // identical payloads repeated within a transaction / block / chain must each print
+                            let p = if !seen_payloads.is_empty() && rng.chance(1, 5) { rng.pick(&seen_payloads).clone() } else { payload(rng) };
+                            seen_payloads.push(p.clone());
                             let forms: Vec<u8> = [0u8, 1, 2, 4].iter().copied().filter(|f| push_form(&p, *f).is_some()).collect();
                             let mut s = vec![0x6a];
                             if p.is_empty() && rng.coin() {
